@@ -810,7 +810,10 @@ pub fn gen(ctx: &mut Ctx) {
         }
     }
     for s in ["cap_net_admin,cap_net_raw+ep", "cap_chown=p cap_kill+i", "=e +p", "=", "all=eip", "ALL=eip", "Cap_Chown+e", "cap_chown+é", "é", "\u{0}",
-              "cap_chown+ep\u{0}", "cap_chown +ep", "\tcap_chown+e\n", "cap_checkpoint_restore-e", "cap_chown,cap_bogus+e", "cap_chown,,cap_kill+e", "cap_chown+e=p-i"] {
+              "cap_chown+ep\u{0}", "cap_chown +ep", "\tcap_chown+e\n", "cap_checkpoint_restore-e", "cap_chown,cap_bogus+e", "cap_chown,,cap_kill+e", "cap_chown+e=p-i",
+              // numbers, white space only, non-ASCII look-alikes, very long names (seeds C17-9, C17-10, C19-8)
+              "45=p", "0=e", "40+p", "41=ep", "63=p", "64=p", "cap_chown,45=p", " ", "\t", " \n", "\u{a0}", "cap_k\u{131}ll=ep",
+              "cap_net_bind_service_in_the_caf\u{e9}=ep", "+cap_net_bind_service_in_the_caf\u{e9}\u{e9}\u{e9}"] {
         if mine(&mut idx) {
             ctx.req(&format!("capsset {}", hx(s.as_bytes())));
         }
